@@ -14,11 +14,16 @@ Has(r, f) == f \in DOMAIN r
 
 (* ---- tolerances per resolution class ------------------------------- *)
 (* sl: micro-nepers (1e-6 relative); bal: units of 1e-8 of the scale     *)
-Tol == [ closed   |-> [sl |-> 5,     bal |-> 100,     jump |-> 200,     rel |-> 5],
-         root     |-> [sl |-> 50,    bal |-> 20000,   jump |-> 20000,   rel |-> 100],
-         ode      |-> [sl |-> 200,   bal |-> 100000,  jump |-> 100000,  rel |-> 1000],
-         series   |-> [sl |-> 200,   bal |-> 100000,  jump |-> 100000,  rel |-> 100],
-         table    |-> [sl |-> 2000,  bal |-> 2000000, jump |-> 2000000, rel |-> 10000] ]
+(* int: integral budgets.  Calibration (DESIGN.md section 7): >= 10 x the worst residual seen on   *)
+(* the thorough campaign of the unchanged tree, <= 1/10 of the smallest seeded-mutant effect.     *)
+Tol == [ closed   |-> [sl |-> 5,     bal |-> 100,     jump |-> 200,     int |-> 200],
+         root     |-> [sl |-> 50,    bal |-> 20000,   jump |-> 20000,   int |-> 20000],
+         ode      |-> [sl |-> 200,   bal |-> 100000,  jump |-> 100000,  int |-> 100000],
+         series   |-> [sl |-> 200,   bal |-> 100000,  jump |-> 100000,  int |-> 100000],
+         table    |-> [sl |-> 2000,  bal |-> 2000000, jump |-> 2000000, int |-> 2000000],
+         (* Sedov observed on its own exact nodes: differences on the node spacing (worst 3e-3), *)
+         (* node-exact shock states (3e-7), Simpson on 3001 nodes (energy 3e-7, mass 5e-5)       *)
+         sedov    |-> [sl |-> 20,    bal |-> 3000000, jump |-> 1000,    int |-> 50000] ]
 
 (* ---- equation of state (C03) --------------------------------------- *)
 (* kind "gamma": p = (gamma-1) rho e ; optional sound speed c^2 = gamma p / rho *)
